@@ -349,7 +349,7 @@ func (w *Writer) Close() error {
 }
 
 func (w *Writer) validateCommitRange(end telem.TimeStamp, switchingFile bool) error {
-	if !w.prevCommit.IsZero() && !switchingFile && end.Before(w.prevCommit) {
+	if !w.prevCommit.IsZero() && !(switchingFile && w.presetEnd) && end.Before(w.prevCommit) {
 		return errors.Wrapf(validate.ErrValidation, "commit timestamp %s must not be less than the previous commit timestamp %s: it is less by a time span of %v", end, w.prevCommit, end.Span(w.prevCommit))
 	}
 	if !w.Start.Before(end) {
